@@ -6,89 +6,90 @@ import (
 	"bytes"
 	"net/http"
 	"net/url"
+	"strconv"
 	"sync"
 
 	"github.com/google/martian/v3/zzverif/vf"
 )
 
-// Engine-side summaries of NewRequest/NewResponse (they are C16's subject).
-var lastRes *Response
-
+// Engine-side summaries of NewRequest/NewResponse (they are C16's subject): method and URL of the
+// request and the status of the response are kept, which is what identifies an exchange below.
 func verifNewRequest(req *http.Request, withBody bool) (*Request, error) {
-	return &Request{Method: "GET"}, nil
+	return &Request{Method: req.Method, URL: req.URL.String()}, nil
 }
 
 func verifNewResponse(res *http.Response, withBody bool) (*Response, error) {
-	lastRes = &Response{Status: res.StatusCode}
-	return lastRes, nil
+	return &Response{Status: res.StatusCode}, nil
 }
 
-func mkReq() *http.Request {
-	return &http.Request{Method: "GET", URL: &url.URL{Scheme: "http", Host: "h", Path: "/"}, Header: http.Header{}, Proto: "HTTP/1.1", ProtoMajor: 1, ProtoMinor: 1}
+// Every recorded request carries its own URL (the tag), every response its own status: entries
+// are compared by what they contain, never by pointer or by the log's internal representation,
+// so the harness goes through the exported API only.
+var tagSeq int
+
+func mkReqTag() (*http.Request, string) {
+	tagSeq++
+	p := "/t" + strconv.Itoa(tagSeq)
+	return &http.Request{Method: "GET", URL: &url.URL{Scheme: "http", Host: "h", Path: p}, Header: http.Header{}, Proto: "HTTP/1.1", ProtoMajor: 1, ProtoMinor: 1}, "http://h" + p
 }
+
+func mkReq() *http.Request { r, _ := mkReqTag(); return r }
 
 func mkRes(status int) *http.Response {
 	return &http.Response{StatusCode: status, Header: http.Header{}, Proto: "HTTP/1.1", ProtoMajor: 1, ProtoMinor: 1, Body: http.NoBody, Request: mkReq()}
 }
 
 type mEntry struct {
-	id   string
-	node *Entry
-	done bool
+	id     string
+	tag    string // URL of the request recorded under this id
+	done   bool
+	status int // status of the response attached to it
 }
 
-// buildState constructs a logger holding n entries in arrival order with the
-// given ids and completion bits, by writing the representation directly.
-func buildState(ids []string, done []bool) (*Logger, []mEntry) {
+// buildState brings a fresh logger, through the exported operations only, into a state holding
+// the given entries in arrival order with the given ids and completion bits. With drained=true
+// the log has a history first: an earlier completed entry that was exported and reset away and
+// an earlier pending one that stays (ids "z0"/"z1", distinct from the symbolic ones).
+func buildState(ids []string, done []bool, drained bool) (*Logger, []mEntry) {
 	l := NewLogger()
 	var model []mEntry
-	var first, prev *Entry
-	for i, id := range ids {
-		e := &Entry{ID: id, Request: &Request{Method: "GET"}, Cache: &Cache{}, Timings: &Timings{}}
-		if done[i] {
-			e.Response = &Response{Status: 200 + i}
-		}
-		l.entries[id] = e
-		if first == nil {
-			first = e
-		} else {
-			prev.next = e
-		}
-		prev = e
-		model = append(model, mEntry{id: id, node: e, done: done[i]})
+	if drained {
+		r0, _ := mkReqTag()
+		r1, t1 := mkReqTag()
+		l.RecordRequest("z0", r0)
+		l.RecordRequest("z1", r1)
+		l.RecordResponse("z0", mkRes(250))
+		l.ExportAndReset()
+		model = append(model, mEntry{id: "z1", tag: t1})
 	}
-	if prev != nil {
-		prev.next = first
-		l.tail = prev
+	for i, id := range ids {
+		r, t := mkReqTag()
+		vf.Assert(l.RecordRequest(id, r) == nil, "build:request-recorded")
+		m := mEntry{id: id, tag: t}
+		if done[i] {
+			l.RecordResponse(id, mkRes(200+i))
+			m.done, m.status = true, 200+i
+		}
+		model = append(model, m)
 	}
 	return l, model
 }
 
-// checkState asserts the representation invariant and equality with the model.
+func sameEntry(e *Entry, m mEntry, tag string) {
+	vf.Assert(e != nil && e.ID == m.id, tag+":entry-id")
+	if e == nil {
+		return
+	}
+	vf.Assert(e.Request != nil && e.Request.URL == m.tag, tag+":entry-is-the-recorded-request")
+	vf.Assert((e.Response != nil) == m.done, tag+":entry-completion")
+	if e.Response != nil && m.done {
+		vf.Assert(e.Response.Status == m.status, tag+":response-attached-to-its-own-request")
+	}
+}
+
+// checkState: an export lists exactly the model's entries, in arrival order.
 func checkState(l *Logger, model []mEntry, tag string) {
-	vf.Assert(len(l.entries) == len(model), tag+":entries-size")
-	if len(model) == 0 {
-		vf.Assert(l.tail == nil, tag+":empty-tail-nil")
-		return
-	}
-	vf.Assert(l.tail != nil, tag+":tail-non-nil")
-	if l.tail == nil {
-		return
-	}
-	cur := l.tail
-	for i := 0; i < len(model); i++ {
-		cur = cur.next
-		vf.Assert(cur != nil, tag+":list-no-nil-link")
-		if cur == nil {
-			return
-		}
-		vf.Assert(cur == model[i].node, tag+":list-order")
-		vf.Assert(cur.ID == model[i].id, tag+":node-id")
-		vf.Assert((cur.Response != nil) == model[i].done, tag+":node-completion")
-		vf.Assert(l.entries[model[i].id] == cur, tag+":map-points-to-node")
-	}
-	vf.Assert(cur == l.tail, tag+":tail-is-last")
-	vf.Assert(cur.next == model[0].node, tag+":circular")
+	sameEntries(l.Export().Log.Entries, model, tag)
 }
 
 func sameEntries(got []*Entry, want []mEntry, tag string) {
@@ -97,7 +98,7 @@ func sameEntries(got []*Entry, want []mEntry, tag string) {
 		return
 	}
 	for i := range got {
-		vf.Assert(got[i] == want[i].node, tag+":export-order")
+		sameEntry(got[i], want[i], tag+":export-order")
 	}
 }
 
@@ -105,6 +106,7 @@ func symIDs(n int) []string {
 	ids := make([]string, n)
 	for i := range ids {
 		ids[i] = vf.String("id", 2)
+		vf.Assume(ids[i] != "z0" && ids[i] != "z1" && ids[i] != "zz")
 		for j := 0; j < i; j++ {
 			vf.Assume(ids[i] != ids[j])
 		}
@@ -112,8 +114,9 @@ func symIDs(n int) []string {
 	return ids
 }
 
-// VerifC17Step: one operation with symbolic arguments from an arbitrary valid
-// state of up to N retained entries (symbolic ids, symbolic completion bits).
+// VerifC17Step: one operation with symbolic arguments from a state of up to N
+// retained entries (symbolic ids, symbolic completion bits), reached through the
+// exported operations with or without an earlier export-and-reset.
 func VerifC17Step() {
 	n := vf.Choice("n", vf.Param("entries")+1)
 	ids := symIDs(n)
@@ -121,7 +124,7 @@ func VerifC17Step() {
 	for i := range done {
 		done[i] = vf.Bool("done")
 	}
-	l, model := buildState(ids, done)
+	l, model := buildState(ids, done, vf.Choice("earlier-export-and-reset", 2) == 1)
 	checkState(l, model, "pre")
 
 	op := vf.Choice("op", 5)
@@ -129,7 +132,8 @@ func VerifC17Step() {
 	switch op {
 	case 0: // RecordRequest with an arbitrary id (new or duplicate)
 		id := vf.String("arg", 2)
-		err := l.RecordRequest(id, mkReq())
+		r, t := mkReqTag()
+		err := l.RecordRequest(id, r)
 		vf.WatchOff()
 		dup := false
 		for _, m := range model {
@@ -143,12 +147,7 @@ func VerifC17Step() {
 			vf.Reach("dup")
 		} else {
 			vf.Assert(err == nil, "record-request:accepted")
-			e := l.entries[id]
-			vf.Assert(e != nil, "record-request:present")
-			if e != nil {
-				vf.Assert(e.Response == nil, "record-request:pending")
-				checkState(l, append(model, mEntry{id: id, node: e}), "record-request-new")
-			}
+			checkState(l, append(model, mEntry{id: id, tag: t}), "record-request-new")
 			vf.Reach("new")
 		}
 	case 1: // RecordResponse with an arbitrary id (known or unknown)
@@ -156,18 +155,14 @@ func VerifC17Step() {
 		err := l.RecordResponse(id, mkRes(299))
 		vf.WatchOff()
 		vf.Assert(err == nil, "record-response:no-error")
-		hit := -1
-		for i, m := range model {
-			if m.id == id {
-				hit = i
+		hit := false
+		for i := range model {
+			if model[i].id == id {
+				model[i].done, model[i].status = true, 299
+				hit = true
 			}
 		}
-		if hit >= 0 {
-			model[hit].done = true
-			vf.Assert(model[hit].node.Response != nil, "record-response:attached")
-			if vf.Symbolic() && model[hit].node.Response != nil {
-				vf.Assert(model[hit].node.Response == lastRes, "record-response:own-response")
-			}
+		if hit {
 			vf.Reach("known-id")
 		} else {
 			vf.Reach("unknown-id")
@@ -192,6 +187,10 @@ func VerifC17Step() {
 		}
 		sameEntries(h.Log.Entries, completed, "export-and-reset")
 		checkState(l, pending, "export-and-reset")
+		// what was kept is still a working log: a later request is appended after the kept ones
+		r, t := mkReqTag()
+		vf.Assert(l.RecordRequest("zz", r) == nil, "export-and-reset:log-usable-afterwards")
+		checkState(l, append(pending, mEntry{id: "zz", tag: t}), "after-export-and-reset")
 		vf.Reach("export-and-reset")
 	case 4:
 		l.Reset()
@@ -203,19 +202,20 @@ func VerifC17Step() {
 }
 
 // VerifC17Sequence: operation sequences from NewLogger over a small id
-// alphabet, checked end to end against the slice model (cross-check of the
-// invariant used by VerifC17Step, and of "each entry exactly once").
+// alphabet, checked end to end against the slice model (also "each entry
+// exactly once over the life of the log").
 func VerifC17Sequence() {
 	l := NewLogger()
 	var model []mEntry
-	exported := map[*Entry]int{}
+	exported := map[string]int{}
 	steps := vf.Param("steps")
 	alphabet := []string{"a", "b", "c"}
 	for s := 0; s < steps; s++ {
 		switch vf.Choice("op", 5) {
 		case 0:
 			id := alphabet[vf.Choice("id", len(alphabet))]
-			err := l.RecordRequest(id, mkReq())
+			r, t := mkReqTag()
+			err := l.RecordRequest(id, r)
 			dup := false
 			for _, m := range model {
 				if m.id == id {
@@ -224,14 +224,14 @@ func VerifC17Sequence() {
 			}
 			vf.Assert((err != nil) == dup, "seq:duplicate-iff-present")
 			if !dup {
-				model = append(model, mEntry{id: id, node: l.entries[id]})
+				model = append(model, mEntry{id: id, tag: t})
 			}
 		case 1:
 			id := alphabet[vf.Choice("id", len(alphabet))]
-			l.RecordResponse(id, mkRes(200))
+			l.RecordResponse(id, mkRes(300+s))
 			for i := range model {
 				if model[i].id == id {
-					model[i].done = true
+					model[i].done, model[i].status = true, 300+s
 				}
 			}
 		case 2:
@@ -249,8 +249,10 @@ func VerifC17Sequence() {
 			}
 			sameEntries(h.Log.Entries, completed, "seq-export-and-reset")
 			for _, e := range h.Log.Entries {
-				exported[e]++
-				vf.Assert(exported[e] == 1, "seq:exported-exactly-once")
+				if e != nil && e.Request != nil {
+					exported[e.Request.URL]++
+					vf.Assert(exported[e.Request.URL] == 1, "seq:exported-exactly-once")
+				}
 			}
 			model = pending
 		case 4:
@@ -405,7 +407,7 @@ func VerifC17Handlers() {
 	if vf.Choice("pending-entry", 2) == 1 {
 		ids, done = append(ids, "b"), append(done, false)
 	}
-	l, model := buildState(ids, done)
+	l, model := buildState(ids, done, false)
 	method := []string{"GET", "POST", "DELETE", "PUT"}[vf.Choice("method", 4)]
 	reset := vf.Choice("reset-handler", 2) == 1
 	rets := []string{"", "return=true", "return=1", "return=false", "return=bogus"}
